@@ -120,10 +120,10 @@ def random_table(rng, V, T, D, force_eos=None, zero_ok=True):
     return tab
 
 
-def make_lm(tables_spec, V, dtype=torch.double, D=None):
+def make_lm(tables_spec, V, dtype=torch.double, D=None, inplace=False):
     from ..doubles.tablelm import TableLM
 
-    return TableLM(V, [table_from_spec(t, V) for t in tables_spec], D=D, dtype=dtype)
+    return TableLM(V, [table_from_spec(t, V) for t in tables_spec], D=D, dtype=dtype, inplace=inplace)
 
 
 def trunc(path, eos):
